@@ -3,9 +3,11 @@ package main
 import (
 	"fmt"
 	"math/rand"
+	"os"
 	"path/filepath"
 	"sort"
 	"strings"
+	"time"
 
 	"github.com/onflow/atree"
 
@@ -76,6 +78,8 @@ func slabVer(s atree.Slab) string {
 		switch x := cs[0].(type) {
 		case hx.TV:
 			return fmt.Sprintf("%d", x.Pay)
+		case slowTV:
+			return fmt.Sprintf("%d", x.Pay)
 		case badStorable:
 			return fmt.Sprintf("%d", verBad)
 		}
@@ -87,6 +91,27 @@ func (e *storEnv) violation(prop, what string) {
 	e.st.Violations = append(e.st.Violations, hx.Violation{
 		Property: prop, Stream: e.st.Stream, Seed: e.cfg.Seed, Program: e.prog, Step: e.step, What: what, Trace: e.w.Path, Line: e.w.Lines,
 	})
+}
+
+// guard runs a call into the library that starts worker goroutines under a watchdog: a commit or
+// preload that never returns (workers blocked on a full result queue while the caller waits for
+// them) would otherwise hang the stream; in a -race build the runtime does not report the deadlock.
+func (e *storEnv) guard(what string, f func() error) error {
+	done := make(chan error, 1)
+	go func() { done <- f() }()
+	select {
+	case err := <-done:
+		return err
+	case <-time.After(20 * time.Second):
+		for _, p := range []string{"C16", "C14"} {
+			e.violation(p, what+" did not return within 20 s (hang)")
+		}
+		e.w.Close()
+		e.st.TraceFiles = []string{} // the trace ends mid-operation: nothing to replay
+		e.st.Emit()
+		os.Exit(0)
+		return nil
+	}
 }
 
 func (e *storEnv) regVer(b []byte) int {
@@ -203,10 +228,21 @@ func runStorageProgram(e *storEnv, nOps int, p int) string {
 	// in the parallel path the set of entries cached before the failing result arrives depends on the schedule
 	withGarbage := p%6 == 5 && len(e.ids) <= 10
 	ver := 0
+	// every third program lets its write set grow before it commits (fault positions deep in a commit)
+	// (not in programs with unencodable slabs: there the size of the write set after a failed
+	// order-relaxed commit depends on the schedule, and the generated history must not)
+	lazyCommit := p%3 == 1 && p%5 != 4
 	for e.step = 0; e.step < nOps; e.step++ {
 		id := e.ids[e.rng.Intn(len(e.ids))]
 		r := e.rng.Intn(100)
 		did := true
+		if lazyCommit && r >= 61 && r < 79 {
+			// (the draws do not depend on the storage's state: the history is a function of the seed)
+			want, keep, alt := 2+e.rng.Intn(len(e.ids)), e.rng.Intn(4) == 0, e.rng.Intn(32)
+			if int(e.ps.DeltasWithoutTempAddresses()) < want && !keep {
+				r = alt // a store or a removal instead of the commit
+			}
+		}
 		switch {
 		case r < 22:
 			ver++
@@ -295,15 +331,23 @@ func runStorageProgram(e *storEnv, nOps int, p int) string {
 				}
 			}
 			workers := 1 + e.rng.Intn(8)
+			if len(ids) > 0 && e.rng.Intn(4) == 0 {
+				e.failingPreload(ids, workers)
+				sig.WriteByte('P')
+				break
+			}
 			w.L("ST preload ids=%s workers=%d", strings.Join(idStrs(ids), ","), workers)
-			err := e.ps.BatchPreload(ids, workers)
+			err := e.guard(fmt.Sprintf("BatchPreload of %d identifiers, %d workers", len(ids), workers), func() error { return e.ps.BatchPreload(ids, workers) })
 			w.L("OBS %s", obsErr(err))
 			sig.WriteByte('p')
-		case r < 94:
+		case r < 93:
 			w.L("ST recreate")
 			e.ps = hx.NewStorage(e.ledger)
 			e.pend = map[atree.SlabID]int{}
 			sig.WriteByte('R')
+		case r < 95:
+			e.failingGenID(uint64(e.rng.Intn(3)))
+			sig.WriteByte('I')
 		case r < 97:
 			a := uint64(e.rng.Intn(3))
 			w.L("ST genid addr=%d", a)
@@ -316,7 +360,11 @@ func runStorageProgram(e *storEnv, nOps int, p int) string {
 			sig.WriteByte('i')
 		default:
 			did = false
-			if withGarbage && id.AddressAsUint64() != 0 {
+			if !withGarbage {
+				e.failingRead(id)
+				sig.WriteByte('F')
+				did = true
+			} else if id.AddressAsUint64() != 0 {
 				// external corruption of a register that is neither pending nor cached
 				if _, d := atree.VerifDeltas(e.ps)[id]; !d {
 					if _, c := atree.VerifCache(e.ps)[id]; !c {
@@ -355,6 +403,168 @@ func runStorageProgram(e *storEnv, nOps int, p int) string {
 	return sig.String()
 }
 
+// snapshot of the in-memory layers (object identity included) for "left no trace" oracles
+type layers struct {
+	deltas, cache map[atree.SlabID]atree.Slab
+	temp         uint64
+	regs         map[string]string
+	calls        int
+}
+
+func (e *storEnv) snap() layers {
+	return layers{atree.VerifDeltas(e.ps), atree.VerifCache(e.ps), atree.VerifTempSlabIndex(e.ps), regsOf(e.ledger), len(e.ledger.Log)}
+}
+
+func sameLayer(a, b map[atree.SlabID]atree.Slab) bool {
+	if len(a) != len(b) {
+		return false
+	}
+	for k, v := range a {
+		if w, ok := b[k]; !ok || w != v {
+			return false
+		}
+	}
+	return true
+}
+
+func (e *storEnv) noTrace(what string, before layers, cacheMayGrow bool) {
+	after := e.snap()
+	if !sameLayer(before.deltas, after.deltas) {
+		e.violation("C15", what+": the write set changed")
+	}
+	if !cacheMayGrow && !sameLayer(before.cache, after.cache) {
+		e.violation("C15", what+": the read cache changed")
+	}
+	if before.temp != after.temp {
+		e.violation("C15", what+": the temporary-identifier counter changed")
+	}
+	if diffRegs(before.regs, after.regs) != "" || before.calls != after.calls {
+		e.violation("C15", what+": the ledger was written")
+	}
+}
+
+// failingRead (D6): Retrieve / RetrieveIgnoringDeltas while the ledger read of id fails.  Served from
+// the write set or the cache the call never reaches the ledger; otherwise the failure must come back
+// as an external error and leave no trace.
+func (e *storEnv) failingRead(id atree.SlabID) {
+	mode := e.rng.Intn(3)
+	e.w.L("ST failget id=%s mode=%d", hx.IDStr(id), mode)
+	before := e.snap()
+	_, inDeltas := before.deltas[id]
+	_, inCache := before.cache[id]
+	e.ledger.ReadFail[id] = true
+	var s atree.Slab
+	var found bool
+	var err error
+	if mode == 0 {
+		s, found, err = e.ps.Retrieve(id)
+	} else {
+		s, found, err = e.ps.RetrieveIgnoringDeltas(id, mode == 2)
+	}
+	delete(e.ledger.ReadFail, id)
+	what := fmt.Sprintf("read of %s (mode %d) with a failing ledger read", hx.IDStr(id), mode)
+	if (mode == 0 && inDeltas) || inCache {
+		e.st.Hit("failing-read:served-in-memory")
+		if err != nil {
+			e.violation("C15", what+": failed although the identifier is served from memory: "+hx.ErrKind(err))
+			e.w.L("OBS err:%s", hx.ErrKind(err))
+		} else {
+			e.w.L("OBS slab:%s", slabVer(s))
+			if mode == 0 {
+				e.checkRead("Retrieve", id, s, found)
+			}
+		}
+	} else {
+		e.st.Hit("failing-read:reached-the-ledger")
+		if err == nil {
+			e.violation("C15", what+": returned no error")
+			e.w.L("OBS slab:%s", slabVer(s))
+		} else {
+			e.w.L("OBS err:%s", hx.ErrKind(err))
+			if hx.ErrKind(err) != "Injected:External" || s != nil {
+				e.violation("C15", what+": reported as "+hx.ErrKind(err))
+			}
+		}
+	}
+	e.noTrace(what, before, false)
+}
+
+// failingGenID (D6): GenerateSlabID while the ledger's allocation fails: external error, nothing
+// allocated (the next successful allocation continues where the last one stopped: compared with the
+// model by the following genid lines); temporary identifiers never reach the ledger.
+func (e *storEnv) failingGenID(a uint64) {
+	e.w.L("ST failgenid addr=%d", a)
+	before := e.snap()
+	idx := map[atree.Address]uint64{}
+	for k, v := range e.ledger.Idx {
+		idx[k] = v
+	}
+	e.ledger.AllocFail = true
+	nid, err := e.ps.GenerateSlabID(hx.MkAddr(a))
+	e.ledger.AllocFail = false
+	what := fmt.Sprintf("GenerateSlabID(%d) with a failing ledger allocation", a)
+	if a == 0 {
+		e.st.Hit("failing-alloc:temporary-address")
+		if err != nil {
+			e.violation("C15", what+": a temporary identifier needed the ledger: "+hx.ErrKind(err))
+			e.w.L("OBS err:%s", hx.ErrKind(err))
+		} else {
+			e.w.L("OBS id:%s", hx.IDStr(nid))
+		}
+		before.temp = atree.VerifTempSlabIndex(e.ps)
+	} else {
+		e.st.Hit("failing-alloc:owned-address")
+		if err == nil {
+			e.violation("C15", what+": returned no error")
+			e.w.L("OBS id:%s", hx.IDStr(nid))
+		} else {
+			e.w.L("OBS err:%s", hx.ErrKind(err))
+			if hx.ErrKind(err) != "Injected:External" {
+				e.violation("C15", what+": reported as "+hx.ErrKind(err))
+			}
+		}
+	}
+	for k, v := range e.ledger.Idx {
+		if idx[k] != v {
+			e.violation("C15", what+": the ledger's index counter moved")
+		}
+	}
+	e.noTrace(what, before, false)
+}
+
+// failingPreload (D6/D4): BatchPreload while the ledger read of one requested identifier fails.
+func (e *storEnv) failingPreload(ids []atree.SlabID, workers int) {
+	fail := ids[e.rng.Intn(len(ids))]
+	e.w.L("ST failpreload ids=%s workers=%d fail=%s", strings.Join(idStrs(ids), ","), workers, hx.IDStr(fail))
+	before := e.snap()
+	e.ledger.ReadFail[fail] = true
+	err := e.guard(fmt.Sprintf("BatchPreload of %d identifiers, %d workers, with a failing ledger read", len(ids), workers), func() error { return e.ps.BatchPreload(ids, workers) })
+	delete(e.ledger.ReadFail, fail)
+	e.w.L("OBS %s", obsErr(err))
+	what := fmt.Sprintf("BatchPreload of %d identifiers with a failing ledger read", len(ids))
+	if err == nil {
+		e.violation("C15", what+": returned no error")
+	} else if k := hx.ErrKind(err); k != "Injected:External" && k != "Decoding:Fatal" {
+		e.violation("C15", what+": reported as "+k)
+	}
+	if len(ids) >= 11 {
+		e.st.Hit("failing-preload:parallel-path")
+		e.noTrace(what, before, false)
+	} else {
+		e.st.Hit("failing-preload:sequential-path")
+		e.noTrace(what, before, true)
+	}
+	// the view is unchanged either way (every cached entry is the decoding of its register)
+	for _, x := range e.ids {
+		if want, _ := e.oview(x); want == verGarbage {
+			continue
+		}
+		if s := e.ps.RetrieveIfLoaded(x); s != nil {
+			e.checkRead("RetrieveIfLoaded after a failed preload", x, s, true)
+		}
+	}
+}
+
 func obsErr(err error) string {
 	if err == nil {
 		return "ok"
@@ -379,12 +589,23 @@ func (e *storEnv) commit(sig *strings.Builder) {
 	workers := []int{1, 2, 3, 8, 64}[e.rng.Intn(5)]
 	e.ledger.ResetCalls()
 	var faults []int
-	if e.rng.Intn(3) == 0 {
-		n := 1 + e.rng.Intn(2)
+	// fault plan: positions among the ledger calls this commit can issue (one per owned pending
+	// entry), so that a planned fault fires unless an earlier one or an encode failure stops the commit
+	// first; the larger the write set, the more often a plan is drawn
+	pendingOwned := int(e.ps.DeltasWithoutTempAddresses())
+	pFault := []int{5, 25, 40, 50}[min(pendingOwned, 3)]
+	if pendingOwned >= 5 {
+		pFault = 65
+	}
+	// (a fixed number of draws per commit, whatever the state)
+	roll, n, raw := e.rng.Intn(100), 1+e.rng.Intn(2), [2]int{e.rng.Intn(1 << 20), e.rng.Intn(1 << 20)}
+	if roll < pFault {
 		for i := 0; i < n; i++ {
-			f := e.rng.Intn(6)
-			e.ledger.FailAt[f] = true
-			faults = append(faults, f)
+			f := raw[i] % max(pendingOwned, 1)
+			if !e.ledger.FailAt[f] {
+				e.ledger.FailAt[f] = true
+				faults = append(faults, f)
+			}
 		}
 		sort.Ints(faults)
 	}
@@ -393,12 +614,12 @@ func (e *storEnv) commit(sig *strings.Builder) {
 	for i, f := range faults {
 		fs[i] = fmt.Sprintf("%d", f)
 	}
-	var err error
-	if kind == "det" {
-		err = e.ps.FastCommit(workers)
-	} else {
-		err = e.ps.NondeterministicFastCommit(workers)
-	}
+	err := e.guard(fmt.Sprintf("commit kind=%s workers=%d with %d owned pending entries", kind, workers, pendingOwned), func() error {
+		if kind == "det" {
+			return e.ps.FastCommit(workers)
+		}
+		return e.ps.NondeterministicFastCommit(workers)
+	})
 	var logParts, mo, dlo []string
 	for _, c := range e.ledger.Log {
 		s := ""
@@ -473,6 +694,19 @@ func (e *storEnv) commit(sig *strings.Builder) {
 	for _, c := range e.ledger.Log {
 		if !c.OK {
 			faulted = true
+		}
+	}
+	if len(faults) > 0 {
+		e.st.Hit("commit-faults:planned")
+		bucket := []string{"0", "1", "2-3", "2-3", "4+"}[min(pendingOwned, 4)]
+		if faulted {
+			e.st.Hit("commit-faults:fired")
+			e.st.Hit("commit-faults:fired:pending=" + bucket)
+			if len(e.ledger.Log) > 1 {
+				e.st.Hit("commit-faults:fired-after-successful-calls")
+			}
+		} else {
+			e.st.Hit("commit-faults:not-reached:pending=" + bucket)
 		}
 	}
 	if faulted && err == nil {
